@@ -192,6 +192,21 @@ func (s *scene) check(accepted bool, what string) {
 	if s.tamper == 1 && s.signedByCfg && s.fitsCfg {
 		zz.Cover(what+":payload-swapped", true)
 	}
+	// further points at which the go-jose model is compared with the real library on replay
+	if s.signedByCfg && s.tamper == 0 {
+		switch {
+		case s.alg == "HS256" || s.alg == "HS512":
+			zz.Cover(what+":hmac-with-the-public-key-as-secret", true)
+		case s.asymAlg && !s.fitsCfg:
+			zz.Cover(what+":asymmetric-alg-of-another-key-type", true)
+		case s.alg == "XS999" || s.alg == "":
+			zz.Cover(what+":unknown-or-missing-alg", true)
+		}
+	} else if s.signedByCfg && s.fitsCfg && s.tamper == 2 {
+		zz.Cover(what+":signature-of-another-token", true)
+	} else if s.signedByCfg && s.fitsCfg && s.tamper == 3 {
+		zz.Cover(what+":signature-stripped", true)
+	}
 }
 
 func nAlgs() int {
@@ -248,5 +263,170 @@ func ZZ_C06_jwt_strategy() {
 	if ierr == nil {
 		zz.Assert(use == fosite.AccessToken, "introspected as access token")
 		zz.Assert(ar.GetSession().GetSubject() == s.sub, "introspected subject is the signed subject")
+	}
+}
+
+// ZZ_C06_jwt_generate: tokens minted by DefaultSigner.Generate / DefaultJWTStrategy.GenerateAccessToken are accepted
+// by the same signer; any alteration built from parts of two minted tokens is refused; another server's token is refused.
+func ZZ_C06_jwt_generate() {
+	ctx := context.Background()
+	ks := kinds()
+	kind := ks[zz.Choice("cfgkind", len(ks))]
+	priv, _ := zzjwt.GenKey(kind)
+	var configured interface{} = priv
+	wrap := zz.Choice("wrap", 3)
+	switch wrap {
+	case 1:
+		configured = &jose.JSONWebKey{Key: priv, KeyID: "server-key", Algorithm: zzjwt.NaturalAlg(kind), Use: "sig"}
+	case 2: // a JWK whose declared algorithm does not fit its key: minting must fail, nothing is handed out
+		bad := "ES256"
+		if kind != zzjwt.RSA {
+			bad = "RS256"
+		}
+		configured = &jose.JSONWebKey{Key: priv, KeyID: "server-key", Algorithm: bad, Use: "sig"}
+	}
+	signer := &jwt.DefaultSigner{GetPrivateKey: func(context.Context) (interface{}, error) { return configured, nil }}
+	cfg := &fosite.Config{ScopeStrategy: fosite.ExactScopeStrategy, AccessTokenIssuer: "https://as.example"}
+	strat := &oauth2.DefaultJWTStrategy{Signer: signer, Config: cfg}
+
+	sub := zz.String("sub", 8)
+	life := zz.Int("life", -3600, 3600)
+	zz.Assume(life != 0)
+	mint := func(subject string, scopes []string) (string, string, error) {
+		sess := &oauth2.JWTSession{
+			JWTClaims: &jwt.JWTClaims{Subject: subject, Extra: map[string]interface{}{"tenant": "t1"}},
+			JWTHeader: &jwt.Headers{Extra: map[string]interface{}{"foo": "bar"}},
+			ExpiresAt: map[fosite.TokenType]time.Time{fosite.AccessToken: time.Now().Add(time.Duration(life) * time.Second)},
+		}
+		req := fosite.NewAccessRequest(sess)
+		req.Client = &fosite.DefaultClient{ID: "c1"}
+		req.GrantedScope = scopes
+		return strat.GenerateAccessToken(ctx, req)
+	}
+	tok, sig, err := mint(sub, []string{"photos"})
+	zz.Observe("mint.ok", err == nil)
+	if wrap == 2 {
+		zz.Cover("generate:refused-alg-key-mismatch", true)
+		zz.Assert(err != nil && tok == "", "generate: a signing key that does not fit its declared algorithm mints nothing")
+		return
+	}
+	if wrap == 0 && (kind == zzjwt.P384 || kind == zzjwt.P521) {
+		// DefaultSigner pins a bare *ecdsa.PrivateKey to ES256; other curves need a JWK that names the algorithm
+		zz.Cover("generate:bare-ecdsa-key-of-another-curve-mints-nothing", true)
+		zz.Assert(err != nil && tok == "", "generate: a bare ECDSA key that does not fit ES256 mints nothing")
+		return
+	}
+	zz.Assert(err == nil, "generate: minting succeeds with a usable key")
+	if err != nil {
+		return
+	}
+	_, _, s3 := zzjwt.Parts(tok)
+	zz.Assert(sig == s3 && sig != "", "generate: the signature returned is the token's third part")
+	verr := strat.ValidateAccessToken(ctx, nil, tok)
+	zz.Observe("minted.valid", verr == nil)
+	if life > 0 {
+		zz.Cover("generate:minted-accepted", true)
+		zz.Assert(verr == nil, "generate: an unexpired server-minted token is accepted")
+	} else {
+		zz.Cover("generate:minted-expired-refused", true)
+		zz.Assert(verr != nil, "generate: an expired server-minted token is refused")
+	}
+	t, derr := signer.Decode(ctx, tok)
+	if derr == nil {
+		got, _ := t.Claims["sub"].(string)
+		zz.Assert(got == sub || sub == "", "generate: the minted token carries the session's subject")
+		alg, _ := t.Header["alg"].(string)
+		zz.Assert(alg == zzjwt.NaturalAlg(kind), "generate: the header algorithm is asymmetric and fits the configured key")
+		zz.Observe("minted.alg", alg)
+		if wrap == 1 {
+			kid, _ := t.Header["kid"].(string)
+			zz.Assert(kid == "server-key", "generate: kid of the configured JWK")
+		}
+	}
+	// alterations built from a second minted token
+	tok2, _, err2 := mint("admin", []string{"photos", "admin"})
+	zz.Assume(err2 == nil)
+	zz.Assert(tok2 != tok, "generate: two minted tokens differ")
+	h1, p1, s1 := zzjwt.Parts(tok)
+	h2, p2, s2 := zzjwt.Parts(tok2)
+	_ = h2
+	var forged string
+	switch zz.Choice("forge", 4) {
+	case 0:
+		forged = zzjwt.Join(h1, p2, s1) // payload of the other token under the first signature
+	case 1:
+		forged = zzjwt.Join(h1, p1, s2) // signature of the other token
+	case 2:
+		forged = zzjwt.Join(h1, p2, "") // signature stripped
+	case 3: // same claims minted by another server (another key of the same type)
+		opriv, _ := zzjwt.GenKey(kind)
+		other := &oauth2.DefaultJWTStrategy{Signer: &jwt.DefaultSigner{GetPrivateKey: func(context.Context) (interface{}, error) { return opriv, nil }}, Config: cfg}
+		sess := &oauth2.JWTSession{JWTClaims: &jwt.JWTClaims{Subject: "admin"}, JWTHeader: &jwt.Headers{},
+			ExpiresAt: map[fosite.TokenType]time.Time{fosite.AccessToken: time.Now().Add(time.Hour)}}
+		req := fosite.NewAccessRequest(sess)
+		req.Client = &fosite.DefaultClient{ID: "c1"}
+		var oerr error
+		forged, _, oerr = other.GenerateAccessToken(ctx, req)
+		zz.Assume(oerr == nil)
+	}
+	ferr := strat.ValidateAccessToken(ctx, nil, forged)
+	zz.Observe("forged.valid", ferr == nil)
+	zz.Cover("generate:forgery-refused", ferr != nil)
+	zz.Assert(ferr != nil, "generate: a token altered after minting or minted under another key is refused")
+}
+
+// ZZ_C06_jwt_keyfunc: jwt.ParseWithClaims - valid only with a signature under the key the Keyfunc returned, or
+// alg none together with the explicit opt-in constant.
+func ZZ_C06_jwt_keyfunc() {
+	kind := zzjwt.RSA
+	if zz.Choice("kind", 2) == 1 {
+		kind = zzjwt.P256
+	}
+	priv, pub := zzjwt.GenKey(kind)
+	_, otherPub := zzjwt.GenKey(kind)
+	alg := []string{zzjwt.NaturalAlg(kind), "none", "HS256"}[zz.Choice("alg", 3)]
+	var key interface{} = priv
+	if alg == "none" {
+		key = nil
+	}
+	tok := zzjwt.Sign(zzjwt.Spec{Alg: alg, Claims: map[string]interface{}{"sub": "peter", "exp": time.Now().Unix() + 600}, Key: key})
+	kf := zz.Choice("keyfunc", 5)
+	var keyFunc jwt.Keyfunc
+	switch kf {
+	case 0:
+		keyFunc = func(*jwt.Token) (interface{}, error) { return pub, nil }
+	case 1:
+		keyFunc = func(*jwt.Token) (interface{}, error) { return otherPub, nil }
+	case 2:
+		keyFunc = func(*jwt.Token) (interface{}, error) { return jwt.UnsafeAllowNoneSignatureType, nil }
+	case 3:
+		keyFunc = func(*jwt.Token) (interface{}, error) { return nil, nil }
+	case 4:
+		keyFunc = nil
+	}
+	t, err := jwt.ParseWithClaims(tok, jwt.MapClaims{}, keyFunc)
+	ok := err == nil && t != nil && t.Valid()
+	zz.Observe("keyfunc.valid", ok)
+	if ok {
+		if alg == "none" {
+			zz.Cover("keyfunc:none-with-opt-in", true)
+			zz.Assert(kf == 2, "keyfunc: alg none is valid only with the explicit opt-in constant")
+		} else {
+			zz.Cover("keyfunc:signed-valid", true)
+			zz.Assert(kf == 0 && alg == zzjwt.NaturalAlg(kind), "keyfunc: valid only with a signature under the key the Keyfunc returned and an asymmetric algorithm")
+		}
+	} else {
+		zz.Cover("keyfunc:refused", true)
+		zz.Assert(!(kf == 0 && alg == zzjwt.NaturalAlg(kind)), "keyfunc: a correctly signed token is valid under its key")
+		zz.Assert(!(kf == 2 && alg == "none"), "keyfunc: the opt-in constant accepts unsigned tokens")
+		if alg == "none" && kf == 0 {
+			zz.Cover("keyfunc:none-refused-without-opt-in", true)
+		}
+		if alg != "none" && kf == 2 {
+			zz.Cover("keyfunc:opt-in-constant-does-not-accept-signed", true)
+		}
+		if alg == "HS256" && kf == 0 {
+			zz.Cover("keyfunc:hs256-key-confusion-refused", true)
+		}
 	}
 }
